@@ -11,7 +11,7 @@ starting from the empty registry; there is no further hypothesis.  Restrictions 
 (lnd: hold AMP invoices are "not supported"), events are atomic (no interleaving inside one
 NotifyExitHopHtlc), blinded paths are the `pathID` / `total` fields of `Ctx`.
 -/
-import LndModel.C15.RegLemmas
+import LndModel.C15.ReplayLemmas
 
 set_option linter.unusedSimpArgs false
 
@@ -279,6 +279,116 @@ theorem replay_same_verdict (H : Nat → Nat) (P : List (Nat × Nat) → Nat →
   intro inv hm ctx g hf hh
   have hg : RegGood H cfg.rejectDelta _ := reachable_good H P cfg evs
   exact replay_verdict (hg.good inv hm) hf hh
+
+theorem key_inj {l : List Htlc} (hn : (l.map (·.key)).Nodup) {y h : Htlc} (hy : y ∈ l) (hh : h ∈ l)
+    (he : y.key = h.key) : y = h := by
+  induction l with
+  | nil => cases hh
+  | cons x t ih =>
+    simp only [List.map_cons, List.nodup_cons] at hn
+    obtain ⟨hx, ht⟩ := hn
+    rcases List.mem_cons.mp hy with rfl | hy'
+    · rcases List.mem_cons.mp hh with rfl | hh'
+      · rfl
+      · exact absurd (List.mem_map.mpr ⟨h, hh', he.symm⟩) hx
+    · rcases List.mem_cons.mp hh with rfl | hh'
+      · exact absurd (List.mem_map.mpr ⟨y, hy', he⟩) hx
+      · exact ih ht hy' hh'
+
+/-- an htlc with a given key is the one `findHtlc` returns (keys are unique on an invoice). -/
+theorem findHtlc_of_mem {H R} {inv : Invoice} (hg : Good H R inv) {h : Htlc} (hh : h ∈ inv.htlcs) :
+    findHtlc inv h.key = some h := by
+  unfold findHtlc
+  cases hf : inv.htlcs.find? (fun g => g.key == h.key) with
+  | none =>
+    rw [List.find?_eq_none] at hf
+    have := hf h hh
+    simp at this
+  | some y =>
+    have hy := List.mem_of_find?_eq_some hf
+    have he : y.key = h.key := by simpa using List.find?_some hf
+    rw [key_inj hg.static.nodup hy hh he]
+
+/-- **same verdict as originally.** If NotifyExitHopHtlc's database part answered `accept`
+    (resp. `settle` with preimage `p`) for a call on an invoice of a reachable registry, then any
+    later call with the same circuit key and the invoice's hash — whatever its other parameters —
+    made directly afterwards is answered `accept` (resp. `settle` with the same `p`) and changes
+    nothing.  (`replay_same_verdict` extends this to every later moment: the answer is always the
+    one of the then recorded state, and by `states_monotone` that state only moves forward.) -/
+theorem replay_after_notify (H : Nat → Nat) (P : List (Nat × Nat) → Nat → Nat → Nat) (cfg : Cfg)
+    (evs : List Event) :
+    ∀ inv ∈ (run H P cfg Reg.empty evs).invs, ∀ (ctx ctx' : Ctx),
+      ctx.rejectDelta = cfg.rejectDelta → (ctx.amp = false → ctx.hash = inv.hash) →
+      ctx'.key = ctx.key → ctx'.hash = inv.hash →
+      (∀ k, (inotify H ctx inv).2 = .accept k →
+        inotify H ctx' (inotify H ctx inv).1 = ((inotify H ctx inv).1, .accept .replayToAccepted)) ∧
+      (∀ k p ht, (inotify H ctx inv).2 = .settle k p ht →
+        inotify H ctx' (inotify H ctx inv).1 =
+          ((inotify H ctx inv).1, .settle .replayToSettled p ctx'.height)) := by
+  intro inv hm ctx ctx' hR hhash hk hh'
+  have hg := (reachable_good H P cfg evs).good inv hm
+  have hg' : Good H cfg.rejectDelta (inotify H ctx inv).1 := inotify_good hg hR
+  have hterms := inotify_terms (H := H) (ctx := ctx) (inv := inv)
+  have hh2 : ctx'.hash = (inotify H ctx inv).1.hash := by rw [← hterms.1]; exact hh'
+  refine ⟨?_, ?_⟩
+  · intro k hr
+    obtain ⟨h, hmem, hkey, hst⟩ := inotify_accept (inv' := (inotify H ctx inv).1) hg
+      (by rw [← hr])
+    have hf : findHtlc (inotify H ctx inv).1 ctx'.key = some h := by
+      rw [hk, ← hkey]; exact findHtlc_of_mem hg' hmem
+    obtain ⟨e1, e2, _, _⟩ := replay_verdict hg' hf hh2
+    exact Prod.ext e1 (e2 hst)
+  · intro k p ht hr
+    obtain ⟨s1, s2, _, h, hmem, hkey, hst⟩ := inotify_settle (inv' := (inotify H ctx inv).1) hg hR hhash
+      (by rw [← hr])
+    have hf : findHtlc (inotify H ctx inv).1 ctx'.key = some h := by
+      rw [hk, ← hkey]; exact findHtlc_of_mem hg' hmem
+    obtain ⟨e1, _, _, e4⟩ := replay_verdict hg' hf hh2
+    obtain ⟨q, hq, _, hr'⟩ := e4 hst
+    rw [s2] at hq; cases hq
+    exact Prod.ext e1 hr'
+
+/-- **replay_same_verdict, registry level.**  In every reachable registry: if an invoice records
+    the circuit key of a NotifyExitHopHtlc call, the spontaneous-payment pre-processing passes
+    without adding an invoice and the invoice-ref lookup finds that invoice, the call changes no
+    invoice and is answered from the recorded state only (accepted → accept, canceled → fail
+    ReplayToCanceled with the recorded accept height, settled → settle ReplayToSettled with the
+    invoice preimage).  When the lookup does find it is `replay_lookup`: on both stores for a call
+    that carries the invoice's own address or none; with a foreign address only on the kv store
+    (the SQL store answers invoice-not-found before the replay check). -/
+theorem replay_same_verdict_registry (H : Nat → Nat) (P : List (Nat × Nat) → Nat → Nat → Nat)
+    (cfg : Cfg) (evs : List Event) (ctx : Ctx) (inv : Invoice) (g : Htlc) :
+    let reg := run H P cfg Reg.empty evs
+    ctx.rejectDelta = cfg.rejectDelta →
+    preprocess H cfg reg ctx = .ok reg →
+    lookup cfg reg.keys ctx.hash (refAddr ctx) (ctx.amp && ctx.pathID.isNone) = some inv.hash →
+    inv ∈ reg.invs → findHtlc inv ctx.key = some g → ctx.hash = inv.hash →
+    (notify H P cfg reg ctx).1.invs = reg.invs ∧ (notify H P cfg reg ctx).1.amps = reg.amps ∧
+    (g.state = .accepted → (notify H P cfg reg ctx).2.reply = .res (.accept .replayToAccepted)) ∧
+    (g.state = .canceled →
+      (notify H P cfg reg ctx).2.reply = .res (.fail .replayToCanceled g.acceptHeight)) ∧
+    (g.state = .settled → ∃ p, inv.preimage = some p ∧ H p = inv.hash ∧
+      (notify H P cfg reg ctx).2.reply = .res (.settle .replayToSettled p ctx.height)) := by
+  intro reg _ hpre hl hm hf hh
+  exact notify_replay (reachable_good H P cfg evs) hpre hl hm hf hh
+
+/-- **the lookup of a replayed call**, in every reachable registry, for an invoice `inv` and a
+    non-AMP ref: (1) if the ref carries no address or the invoice's own address, both stores find
+    `inv`; (2) if it carries a foreign non-blank address that no invoice has, the kv store still
+    finds `inv` by hash (and `updateMpp` / the replay check decide), the SQL store finds
+    nothing. -/
+theorem replay_lookup (H : Nat → Nat) (P : List (Nat × Nat) → Nat → Nat → Nat) (cfg : Cfg)
+    (evs : List Event) :
+    let reg := run H P cfg Reg.empty evs
+    ∀ inv ∈ reg.invs,
+      (∀ ref : Option (Nat × Nat), (∀ t a, ref = some (t, a) → a = inv.payAddr) →
+        lookup cfg reg.keys inv.hash ref false = some inv.hash) ∧
+      (∀ t a, a ≠ 0 → a ≠ inv.payAddr → (∀ k ∈ reg.keys, k.2 ≠ a) →
+        lookup cfg reg.keys inv.hash (some (t, a)) false = (if cfg.sql then none else some inv.hash)) := by
+  intro reg inv hm
+  have hk := reachable_keysOk H P cfg evs
+  exact ⟨fun ref hr => lookup_same_route hk hm ref hr,
+    fun t a h0 hne hno => lookup_foreign_addr hk hm t a h0 hne hno⟩
 
 /-! ### meaning of the recorded terms -/
 
